@@ -1,3 +1,5 @@
+import Proofs.EcdsaCodec
+import Proofs.NamedCurves
 import Proofs.EcdsaInstToyRec
 import Proofs.EcdsaInstNamed
 import Proofs.EcdsaInstNt
@@ -69,6 +71,25 @@ theorem recovery_with_data {σ : Type} (C : RecoverOpsCorrect ops G den xc valid
     ∃ l, fromPublicKeyRecovery ops sqrt Hash dec sig data allow = .ok l ∧ l.length ≤ 2 ∧
       (∃ A ∈ l, valid A ∧ den A = d • G) ∧ ∀ A ∈ l, verify ops A Hash dec sig data allow = .ok true :=
   recovery_wrapper C sqrt hsq d e k r s x0 H dec sig (Hash data) allow hdec htr
+
+/-- the two concrete decoders of the wrappers' signature (`sigdecode_string`, the default, and `sigdecode_der`): the
+hypothesis "the decoder reads the honest pair back" of `recovery_with_digest` is discharged by C12 — the signature is
+the one `sigencode_string` / `sigencode_der` emits for the honest `(r, s)` (`2 ≤ n ≤ 256^126` for DER) -/
+theorem recovery_with_digest_string_and_der (C : RecoverOpsCorrect ops G den xc valid) (sqrt : ℤ → ℤ → Res ℤ)
+    (hsq : SqrtSpec sqrt ops.p) (hbig : ops.order ≤ 256 ^ 126) (d e k r s x0 : ℤ) (H : Honest ops G xc d e k r s x0)
+    (dg : Bytes) (allow : Bool) (htr : truncateAndConvertDigest dg (baselen ops) ops.order allow = .ok e) :
+    (∀ sig, encString r s ops.order = .ok sig →
+      ∃ l, fromPublicKeyRecoveryWithDigest ops sqrt Util.sigdecodeString sig dg allow = .ok l ∧ l.length ≤ 2 ∧
+        (∃ A ∈ l, valid A ∧ den A = d • G) ∧ ∀ A ∈ l, verifyDigest ops A Util.sigdecodeString sig dg allow = .ok true)
+    ∧ (∀ sig, encDer r s ops.order = .ok sig →
+      ∃ l, fromPublicKeyRecoveryWithDigest ops sqrt Util.sigdecodeDer sig dg allow = .ok l ∧ l.length ≤ 2 ∧
+        (∃ A ∈ l, valid A ∧ den A = d • G) ∧ ∀ A ∈ l, verifyDigest ops A Util.sigdecodeDer sig dg allow = .ok true) := by
+  obtain ⟨r1, r2, s1, s2⟩ := sign_range C.toPointOpsCorrect d e k r s H.hk H.hsig
+  have hn := C.two_le
+  exact ⟨fun sig h => recovery_with_digest C sqrt hsq d e k r s x0 H _ sig dg allow
+      (string_roundtrip _ r s hn (by omega) r2 (by omega) s2 sig h) htr,
+    fun sig h => recovery_with_digest C sqrt hsq d e k r s x0 H _ sig dg allow
+      (der_roundtrip _ r s hn hbig (by omega) r2 (by omega) s2 sig h) htr⟩
 
 /-! ### non-vacuity: y² = x³ + 2x + 1 over 𝔽₅, order 7, G = (0,1); d = 3, k = 2 (k•G = (1,3), x₀ = 1 < 7) -/
 
@@ -142,26 +163,21 @@ example : sign (OnCurve.ops OnCurve.toyCrv) 3 5 2 = .ok (5, 10)
 end OnCurve
 
 /-! ### the named curves
-For each of the 16 named curves with cofactor 1 (rows of `Generated/Curves.lean`, re-extracted from the source on
-every run) the only hypotheses left are the SEC 2 / FIPS 186 / RFC 5639 facts **p prime, n prime, #E(𝔽_p) = n**
-(DESIGN §4); generator on the curve, reduced coordinates, Δ ≠ 0, h = 1 are computed by the kernel
-(`OnCurve.rowCheck_named`), `n • G = 0` is Lagrange, ⟨G⟩ is the whole group. -/
+For EVERY row of the generated curve table (all 17 named curves, the cofactor-4 curve SECP112r2 included) the only
+hypotheses are **p prime, n prime** — NOT #E(𝔽_p) = n: for an honest signature the constructed points are ±k•G
+(`recovery_honest`), and `n • G = 0`, G on the curve, reduced coordinates are computed by the kernel on the extracted row
+(`Named.checked_of_mem`, Proofs/NamedCurves.lean). -/
 section Named
 open GroupInterface
 
-theorem recovery_named (row : Gen.CurveRow) (hrow : row ∈ [Gen.curve_NIST192p, Gen.curve_NIST224p, Gen.curve_NIST256p, Gen.curve_NIST384p,
-      Gen.curve_NIST521p, Gen.curve_SECP256k1, Gen.curve_BRAINPOOLP160r1, Gen.curve_BRAINPOOLP192r1,
-      Gen.curve_BRAINPOOLP224r1, Gen.curve_BRAINPOOLP256r1, Gen.curve_BRAINPOOLP320r1, Gen.curve_BRAINPOOLP384r1,
-      Gen.curve_BRAINPOOLP512r1, Gen.curve_SECP112r1, Gen.curve_SECP128r1, Gen.curve_SECP160r1])
-    [Fact row.p.Prime] (hnp : row.n.Prime)
-    (hcard : Nat.card (Jac.Grp ((row.a : ℤ) : ZMod row.p) ((row.b : ℤ) : ZMod row.p)) = row.n) :
-    ∃ C : Ctx row.p row.a row.b, C.n = row.n ∧ ∀ d e k r s x0 : ℤ,
-      Honest (OnCurve.ops (OnCurve.crvOfRow row)) C.G OnCurve.xcOf d e k r s x0 →
-      ∃ l, recoverPublicKeys (OnCurve.ops (OnCurve.crvOfRow row)) NT.squareRootModPrime r s e = .ok l ∧ l.length ≤ 2 ∧
-        (∃ A ∈ l, OnCurve.Valid C A ∧ OnCurve.den C A = d • C.G) ∧
-        ∀ A ∈ l, verifies (OnCurve.ops (OnCurve.crvOfRow row)) A e r s = .ok true := by
-  obtain ⟨C, M, hn⟩ := OnCurve.matchesRec_of_row row hnp hcard (OnCurve.rowCheck_named row hrow)
-  exact ⟨C, hn, fun d e k r s x0 H => recovery_on_curve _ C M d e k r s x0 H⟩
+theorem recovery_named (row : Gen.CurveRow) (hrow : row ∈ Gen.curveTable) [Fact row.p.Prime] (hnp : row.n.Prime) :
+    ∀ d e k r s x0 : ℤ,
+      Honest (OnCurve.ops (Named.crvOf row)) (Named.baseCtx row (Named.checked_of_mem hrow)).G OnCurve.xcOf d e k r s x0 →
+      ∃ l, recoverPublicKeys (OnCurve.ops (Named.crvOf row)) NT.squareRootModPrime r s e = .ok l ∧ l.length ≤ 2 ∧
+        (∃ A ∈ l, OnCurve.Valid (Named.baseCtx row (Named.checked_of_mem hrow)) A ∧
+          OnCurve.den (Named.baseCtx row (Named.checked_of_mem hrow)) A = d • (Named.baseCtx row (Named.checked_of_mem hrow)).G) ∧
+        ∀ A ∈ l, verifies (OnCurve.ops (Named.crvOf row)) A e r s = .ok true :=
+  fun d e k r s x0 H => recovery_honest _ _ (Named.matches_row (Named.checked_of_mem hrow) hnp) d e k r s x0 H
 
 end Named
 
